@@ -5,7 +5,7 @@ TIER=${1:-quick}
 cd /verif || exit 2
 git -C /repo diff --quiet || { echo "/repo has uncommitted changes: evidence would not describe the unchanged tree"; exit 2; }
 rc=0
-for p in C01 C02 C03 C04 C05 C06 C08 C10 C12 C13 C14 C15 C17 C19; do
+for p in C01 C02 C03 C04 C05 C06 C08 C10 C11 C12 C13 C14 C15 C17 C19; do
   ./check $p --tier $TIER 2>&1 | grep -E "^(OK|VIOLATION|INCONCLUSIVE property|KNOWN-FINDING)" | cut -c1-160
   [ ${PIPESTATUS[0]} -eq 0 ] || rc=1
 done
